@@ -288,7 +288,7 @@ func c04Gen(t *rapid.T) c04Case {
 	}
 	// candidate step ids
 	var steps []string
-	steps = append(steps, "greet", "ehlo#1", "helo#1", "starttls", "ehlo#2", "auth#1", "noop#1", "noop#2", "noop#3", "rset#1", "rset#2", "rset#3", "quit")
+	steps = append(steps, "greet", "ehlo#1", "helo#1", "starttls", "ehlo#2", "auth#1", "noop#1", "noop#2", "noop#3", "rset#1", "rset#2", "rset#3", "rsetabandon#1", "rsetabandon#1", "rsetabandon#2", "quit")
 	for m := 1; m <= n; m++ {
 		steps = append(steps, fmt.Sprintf("mail#%d", m), fmt.Sprintf("data#%d", m), fmt.Sprintf("eod#%d", m))
 		for r := 1; r <= 3; r++ {
@@ -307,7 +307,7 @@ func c04Gen(t *rapid.T) c04Case {
 func c04Describe() {
 	rec := core.Rec("C04")
 	rec.Rule = "sessions of the real Client against the strict reference server (own RFC 5321 command parser + transaction automaton) over in-memory connections. Random part: rapid draws the advertised capability subset of {8BITMIME, SMTPUTF8, DSN, ENHANCEDSTATUSCODES, STARTTLS, AUTH} (optionally a different set after STARTTLS), TLS policy, AUTH on/off, DSN off/WithDSN/custom RET+NOTIFY, 1..3 messages x 1..3 recipients with QP/base64/8bit encoding, Send on a dialled client or DialAndSend, and 0..5 non-ok replies (4yz, 5yz, drop, 421+close) at drawn step ids. " +
-		"Enumerated part (TestC04Enum): for every capability subset (64; 8 in quick) x 2 client configurations x batch 2x2, the fault-free run is recorded and then EVERY step id it contains is replaced by each of {4yz, 5yz, drop} (all <= 1-fault scripts); thorough additionally all 2-fault scripts for four capability sets. " +
+		"Enumerated part (TestC04Enum): for every capability subset (64; 8 in quick) x 2 client configurations x batch 2x2, the fault-free run is recorded and then EVERY step id it contains is replaced by each of {4yz, 5yz, drop} (all <= 1-fault scripts), and every rejected MAIL/RCPT/DATA combined with a refused abandoning RSET; thorough additionally all 2-fault scripts for four capability sets. " +
 		"Oracle: no automaton violation (bytes before greeting, command before EHLO, nested MAIL, RCPT without MAIL, DATA without or after a rejected recipient, unadvertised or mis-formed ESMTP parameter, pipelining, malformed command), no MAIL for an 8bit message without 8BITMIME, RET/NOTIFY exactly as configured, and the reply tag quoted by each SendError belongs to the command kind and transaction named by its Reason. " +
 		"Non-trivial: >= 1 non-ok reply, or a capability set that suppresses a configured parameter. Distinct by (capabilities, config, batch, fault script)."
 	rec.Assumptions = []string{"pipelining is detected when the next command arrives in the same read as the previous one (in-memory transport)", "a watchdog time-out marks a session inconclusive (counted), never a violation"}
@@ -367,6 +367,22 @@ func TestC04Enum(t *testing.T) {
 					core.Rec("C04").AddExtra("enumerated_one_fault_scripts", 1)
 					if v := p.RunOne(c); v != nil {
 						t.Fatalf("VIOLATION-DETAIL property=C04 %s", v)
+					}
+				}
+			}
+			// the failure-then-failed-RSET pairs: a rejected MAIL/RCPT/DATA whose abandoning RSET is refused too
+			for _, st := range steps {
+				if !(strings.HasPrefix(st, "mail#") || strings.HasPrefix(st, "rcpt#") || strings.HasPrefix(st, "data#")) {
+					continue
+				}
+				for _, o1 := range outcomes[:2] {
+					for _, o2 := range outcomes {
+						c := base
+						c.Steps = map[string]refsmtp.Outcome{st: o1, "rsetabandon#1": o2}
+						core.Rec("C04").AddExtra("enumerated_fault_plus_failed_rset_scripts", 1)
+						if v := p.RunOne(c); v != nil {
+							t.Fatalf("VIOLATION-DETAIL property=C04 %s", v)
+						}
 					}
 				}
 			}
